@@ -97,10 +97,8 @@ func (s *SpokFile) buildGraph(requested ...string) (*dag.Graph[string, task.Task
 	// DAG of tasks using the name as the unique id
 	graph := dag.New[string, task.Task]()
 
-	// TODO: Make this recursive so it will go through dependencies of dependencies
 	for _, name := range requested {
-		requestedTask, ok := s.Tasks[name]
-		if !ok {
+		if !s.HasTask(name) {
 			closest := s.findClosestMatch(name)
 			err := fmt.Errorf("Spokfile has no task %q", name)
 			if closest != "" {
@@ -109,47 +107,57 @@ func (s *SpokFile) buildGraph(requested ...string) (*dag.Graph[string, task.Task
 			}
 			return nil, err
 		}
-		// Add the task as a vertex to the graph if it doesn't already exist
-		if !graph.ContainsVertex(name) {
-			err := graph.AddVertex(name, requestedTask)
-			if err != nil {
-				return nil, fmt.Errorf("could not add vertex for task %s: %w", name, err)
-			}
-		}
-
-		// For all of this tasks dependencies, do the same
-		for _, dep := range requestedTask.TaskDependencies {
-			depTask, ok := s.Tasks[dep]
-			if !ok {
-				closest := s.findClosestMatch(dep)
-				err := fmt.Errorf("Task %q declares a dependency on task %q, which does not exist", requestedTask.Name, dep)
-				if closest != "" {
-					// We have a close enough match to do a "did you mean X?"
-					err = fmt.Errorf("Task %q declares a dependency on task %q, which does not exist. Did you mean %q?", requestedTask.Name, dep, closest)
-				}
-				return nil, err
-			}
-			s.logger.Debug("Task %s depends on task %s", requestedTask.Name, depTask.Name)
-			if !graph.ContainsVertex(dep) {
-				err := graph.AddVertex(dep, depTask)
-				if err != nil {
-					return nil, fmt.Errorf("could not add vertex for task %s: %w", dep, err)
-				}
-			}
-
-			// Now create the dependency connection between the parent task and this one
-			// dep is the parent here because it must be run before the task we're
-			// currently in
-			err := graph.AddEdge(dep, name)
-			if err != nil {
-				return nil, fmt.Errorf("could not add edge %s -> %s: %w", dep, name, err)
-			}
+		if err := s.addToGraph(graph, name); err != nil {
+			return nil, err
 		}
 	}
 
 	s.logger.Debug("Built dependency graph for requested tasks: %v in %v", requested, time.Since(start))
 
 	return graph, nil
+}
+
+// addToGraph adds the named task (which must exist) to the graph as a vertex, followed by
+// everything it depends on, everything those depend on and so on, connecting each
+// task to its dependencies as it goes.
+func (s *SpokFile) addToGraph(graph *dag.Graph[string, task.Task], name string) error {
+	if graph.ContainsVertex(name) {
+		// Already been here, this is also what stops us going round in circles if
+		// the dependencies contain a cycle
+		return nil
+	}
+	current := s.Tasks[name]
+	if err := graph.AddVertex(name, current); err != nil {
+		return fmt.Errorf("could not add vertex for task %s: %w", name, err)
+	}
+
+	for _, dep := range current.TaskDependencies {
+		depTask, ok := s.Tasks[dep]
+		if !ok {
+			closest := s.findClosestMatch(dep)
+			err := fmt.Errorf("Task %q declares a dependency on task %q, which does not exist", current.Name, dep)
+			if closest != "" {
+				// We have a close enough match to do a "did you mean X?"
+				err = fmt.Errorf("Task %q declares a dependency on task %q, which does not exist. Did you mean %q?", current.Name, dep, closest)
+			}
+			return err
+		}
+		s.logger.Debug("Task %s depends on task %s", current.Name, depTask.Name)
+
+		// Same again for the dependency and all of its dependencies
+		if err := s.addToGraph(graph, dep); err != nil {
+			return err
+		}
+
+		// Now create the dependency connection between the parent task and this one
+		// dep is the parent here because it must be run before the task we're
+		// currently in
+		if err := graph.AddEdge(dep, name); err != nil {
+			return fmt.Errorf("could not add edge %s -> %s: %w", dep, name, err)
+		}
+	}
+
+	return nil
 }
 
 // Run runs the specified tasks, it takes force which is a boolean flag set by the CLI which
@@ -173,6 +181,11 @@ func (s *SpokFile) Run(stream iostream.IOStream, runner shell.Runner, force bool
 	runOrder, err := dag.Sort()
 	if err != nil {
 		return nil, err
+	}
+	if len(runOrder) != dag.Order() {
+		// The sort leaves out every task that is part of, or depends on, a cycle
+		// without saying so unless nothing at all can be sorted
+		return nil, errors.New("task dependencies contain a cycle and cannot be sorted")
 	}
 	names := make([]string, 0, len(runOrder))
 	for _, taskToRun := range runOrder {
